@@ -73,6 +73,24 @@ Section KwChars.
   Lemma kw_no_end_l kw x c : In kw (keywords L) -> lkwfree_char L c = true -> ends kw (x ++ [c]) = false.
   Proof. intros H Hc. eapply (ends_last_mismatch (lkwfree_char L)); eauto. now apply kw_last. Qed.
 
+  (* a keyword-free name contains no keyword: on the subdomain the clause "names contain no keyword of the
+     format" of C02's vocab_ok is implied, i.e. name_ok n = "non-empty string of identifier characters" *)
+  Lemma contains_kwfree kw n : In kw (keywords L) -> lkwfree_name L n = true -> contains kw n = false.
+  Proof.
+    intros Hkw. induction n as [|c n IH]; intros Hq; cbn [contains].
+    - pose proof (keyword_nonempty kw Hkw) as Hne. destruct kw; [congruence | reflexivity].
+    - unfold lkwfree_name in Hq. cbn [forallb] in Hq. apply andb_true_iff in Hq as [Hc Hq].
+      rewrite (kw_no_start_l kw c n Hkw Hc). cbn [orb]. now apply IH.
+  Qed.
+
+  Lemma name_ok_kwfree ia n : lkwfree_name L n = true ->
+    LexSpec.name_ok L ia n = LexParser.nonempty n && forallb (ident L ia) n.
+  Proof.
+    intros Hq. unfold LexSpec.name_ok.
+    replace (forallb (fun k => negb (contains k n)) (keywords L)) with true; [now rewrite andb_true_r|].
+    symmetry. apply forallb_forall. intros k Hk. now rewrite (contains_kwfree k n Hk Hq).
+  Qed.
+
   (* membership in LexSpec.keywords, by class *)
   Lemma kw_app_l (a b : list str) k : In k a -> k <> [] -> In k (filter LexParser.nonempty (a ++ b)).
   Proof. intros H Hne. apply filter_In. split; [apply in_or_app; now left | destruct k; [congruence | reflexivity]]. Qed.
@@ -966,6 +984,41 @@ Lemma han_replaced_checks :
   lex_selfdelim LEX_HAN std_alnum = false /\ lex_clean_atoms_ok LEX_HAN std_alnum = false /\
   budget_left_nonident std_alnum LEX_HAN = false /\ same_layout FORMAT_HAN LEX_HAN = false /\
   lex_kwfree_term_ok LEX_HAN = true /\ lex_kwfree_atoms_ok LEX_HAN = true /\ lex_kw_sub FORMAT_HAN LEX_HAN = true.
+Proof. repeat split; vm_compute; reflexivity. Qed.
+
+(* the checks are not vacuous.  (a) A format whose prefix dictionary contains 某 and 某任 fails the term check.
+   (b) The stamp clause of lex_kwfree_atoms_ok is NEEDED: let Han's bracket-less stamp form be opened by 某 (an
+   atom prefix) instead of 发生在; every other table check of C02 still passes, the bare atom 某12 -- in the
+   vocabulary, keyword-free name 12 -- is printed 某12 and read as a stamp without a term: the round trip
+   fails (LErr), and the check is false.  (c) Formats of different names do not pass the keyword-character
+   inclusion. *)
+Definition with_prefixes_stamps (L : lfmt) (pre : list str) (st : list (str * str)) : lfmt := {|
+  l_space_is_for_parse := l_space_is_for_parse L; l_remove_spaces_before_parse := l_remove_spaces_before_parse L;
+  l_format_terms := l_format_terms L; l_format_items := l_format_items L;
+  l_prefixes_raw := pre; l_is_identifier := l_is_identifier L; l_set_brackets_raw := l_set_brackets_raw L;
+  l_compound_brackets := l_compound_brackets L; l_separator := l_separator L; l_connecters_raw := l_connecters_raw L;
+  l_statement_brackets := l_statement_brackets L; l_copulas_raw := l_copulas_raw L;
+  l_punctuations_raw := l_punctuations_raw L; l_truth_brackets := l_truth_brackets L;
+  l_truth_separator := l_truth_separator L; l_is_truth_content := l_is_truth_content L;
+  l_stamp_brackets_raw := st; l_is_stamp_content := l_is_stamp_content L;
+  l_budget_brackets := l_budget_brackets L; l_budget_separator := l_budget_separator L;
+  l_is_budget_content := l_is_budget_content L
+|}.
+Definition ex_han_bad_prefixes : lfmt :=
+  with_prefixes_stamps LEX_HAN (l_prefixes_raw LEX_HAN ++ [[26576; 20219]%N]) (l_stamp_brackets_raw LEX_HAN).
+Definition ex_han_bad_stamp : lfmt :=
+  with_prefixes_stamps LEX_HAN (l_prefixes_raw LEX_HAN)
+    (map (fun t => match snd t with [] => ([26576]%N, []) | _ => t end) (l_stamp_brackets_raw LEX_HAN)).
+
+Lemma kw_checks_discriminate :
+  lex_kwfree_term_ok ex_han_bad_prefixes = false /\
+  (let x := NTerm (LAtom [26576]%N [49; 50]%N) in
+   lex_kwfree_atoms_ok ex_han_bad_stamp = false /\ lex_kwfree_term_ok ex_han_bad_stamp = true /\
+   lex_c02_ok ex_han_bad_stamp std_alnum = true /\
+   vocab_ok ex_han_bad_stamp std_alnum x = true /\ lnames_kwfree ex_han_bad_stamp x = true /\
+   lex_fmt ex_han_bad_stamp x = [26576; 49; 50]%N /\
+   lex_parse std_alnum ex_han_bad_stamp (lex_fmt ex_han_bad_stamp x) = LErr) /\
+  lex_kw_sub FORMAT_ASCII LEX_HAN = false /\ lex_kw_sub FORMAT_HAN LEX_ASCII = false.
 Proof. repeat split; vm_compute; reflexivity. Qed.
 
 (* ================================================================================== *)
